@@ -28,6 +28,11 @@ type ConcOp struct {
 	Val   string `json:"val"`
 	Ver   uint32 `json:"ver"`
 	Yield int    `json:"yield"` // Gosched calls before the operation
+	// Restricted: the call is made by the restricted caller (LinCase.Rules) instead of the superuser.
+	// Whether the ACL refuses it depends on (rules, action, name) only, never on the state, so the
+	// runner works it out beforehand and stores it in Denied for the sequential model.
+	Restricted bool `json:"restricted,omitempty"`
+	Denied     bool `json:"-"`
 }
 
 type LinCase struct {
@@ -35,6 +40,7 @@ type LinCase struct {
 	HTTP       bool       `json:"http"`
 	Setup      int        `json:"setup"`       // the first Setup programs run to completion, one after the other, before the others start
 	AuditYield int        `json:"audit_yield"` // the audit device yields the processor this many times per write/sync (a slow device)
+	Rules      []model.Rule `json:"rules,omitempty"` // grant of the restricted caller
 }
 
 type linOut struct {
@@ -67,6 +73,10 @@ var linModel = porcupine.Model{
 		m := state.(model.KV).Clone()
 		o := input.(ConcOp)
 		r := output.(linOut)
+		if o.Denied {
+			// refused by the ACL: access-denied, whatever the state, and no effect
+			return r.Class == model.Denied, m
+		}
 		switch o.Kind {
 		case "put":
 			v, c := m.Put(o.Name, o.Val)
@@ -152,12 +162,24 @@ func runC14(t *testing.T, c LinCase) (*h.Violation, h.Info) {
 		return h.V("harness", "open: %v", err), info
 	}
 	su := dbx.Super()
+	low := dbx.Restricted(1, c.Rules)
+	who := func(o *ConcOp) dbx.CallerM {
+		if !o.Restricted || o.Kind == "list" || o.Kind == "final" {
+			o.Restricted = false
+			return su
+		}
+		o.Denied = !model.Allow(c.Rules, dbx.ActionOf(o.Kind), o.Name)
+		if o.Denied {
+			info.Class("call-refused-by-the-acl")
+		}
+		return low
+	}
 	var mk func() dbx.Target = func() dbx.Target { return dbx.DBTarget{D: d} }
 	if c.HTTP {
 		info.Class("path-http")
 		// ONE server (one set of handlers) serves all clients at once, as in production;
 		// every client gets its own recorder of replies
-		shared, err := dbx.NewHTTP(d, []dbx.CallerM{su})
+		shared, err := dbx.NewHTTP(d, []dbx.CallerM{su, low})
 		if err != nil {
 			return h.V("harness", "server: %v", err), info
 		}
@@ -173,8 +195,9 @@ func runC14(t *testing.T, c LinCase) (*h.Violation, h.Info) {
 	runProg := func(ci int, prog []ConcOp, tgt dbx.Target) {
 		for _, o := range prog {
 			op := dbx.Op{Kind: o.Kind, Name: o.Name, Val: []byte(o.Val)}
+			caller := who(&o)
 			call := clock.Add(1)
-			r := tgt.Do(su, op, o.Ver)
+			r := tgt.Do(caller, op, o.Ver)
 			ret := clock.Add(1)
 			hist = append(hist, porcupine.Operation{ClientId: ci, Input: o, Call: call, Output: linOut{Class: r.Class, Ver: r.Ver, Val: string(r.Val)}, Return: ret})
 		}
@@ -196,8 +219,11 @@ func runC14(t *testing.T, c LinCase) (*h.Violation, h.Info) {
 					runtime.Gosched()
 				}
 				op := dbx.Op{Kind: o.Kind, Name: o.Name, Val: []byte(o.Val)}
+				mu.Lock()
+				caller := who(&o)
+				mu.Unlock()
 				call := clock.Add(1)
-				r := tgt.Do(su, op, o.Ver)
+				r := tgt.Do(caller, op, o.Ver)
 				ret := clock.Add(1)
 				out := linOut{Class: r.Class, Ver: r.Ver, Val: string(r.Val)}
 				if r.Info != nil {
@@ -272,18 +298,34 @@ func genLinCase(rt *rapid.T) LinCase {
 	c := LinCase{HTTP: rapid.IntRange(0, 2).Draw(rt, "http") == 0, AuditYield: rapid.SampledFrom([]int{0, 1, 3}).Draw(rt, "audityield")}
 	nc := rapid.IntRange(2, 4).Draw(rt, "clients")
 	names := []string{"a", "a", "a", "b"}
+	withLow := rapid.IntRange(0, 2).Draw(rt, "with-restricted") == 0
+	if withLow {
+		c.Rules = genLinRules(rt)
+	}
 	for i := 0; i < nc; i++ {
 		c.Progs = append(c.Progs, rapid.SliceOfN(rapid.Custom(func(rt *rapid.T) ConcOp {
 			return ConcOp{
-				Kind:  rapid.SampledFrom([]string{"put", "put", "put", "activate", "delver", "del", "get", "getver", "cond", "info", "list"}).Draw(rt, "kind"),
-				Name:  rapid.SampledFrom(names).Draw(rt, "name"),
-				Val:   rapid.SampledFrom([]string{"", "x", "y"}).Draw(rt, "val"),
-				Ver:   uint32(rapid.IntRange(1, 4).Draw(rt, "ver")),
-				Yield: rapid.IntRange(0, 3).Draw(rt, "yield"),
+				Kind:       rapid.SampledFrom([]string{"put", "put", "put", "activate", "delver", "del", "get", "getver", "cond", "info", "list"}).Draw(rt, "kind"),
+				Name:       rapid.SampledFrom(names).Draw(rt, "name"),
+				Val:        rapid.SampledFrom([]string{"", "x", "y"}).Draw(rt, "val"),
+				Ver:        uint32(rapid.IntRange(1, 4).Draw(rt, "ver")),
+				Yield:      rapid.IntRange(0, 3).Draw(rt, "yield"),
+				Restricted: withLow && rapid.IntRange(0, 2).Draw(rt, "restricted") > 0,
 			}
 		}), 2, 5).Draw(rt, "prog"))
 	}
 	return c
+}
+
+// genLinRules draws the grant of the restricted caller of the concurrent runs: one or two rules
+// over the names a and b, so that a good share of its calls is refused and a good share allowed.
+func genLinRules(rt *rapid.T) []model.Rule {
+	return rapid.SliceOfN(rapid.Custom(func(rt *rapid.T) model.Rule {
+		return model.Rule{
+			Action: rapid.SliceOfNDistinct(rapid.SampledFrom(model.AllActions), 1, 4, func(s string) string { return s }).Draw(rt, "actions"),
+			Secret: rapid.SampledFrom([][]string{{"a"}, {"b"}, {"*"}, {"a", "b"}, {"x*"}}).Draw(rt, "secrets"),
+		}
+	}), 1, 2).Draw(rt, "rules")
 }
 
 var c14 = &h.Campaign[LinCase]{
@@ -322,7 +364,52 @@ var c09conc = &h.Campaign[LinCase]{
 	Run: runC14,
 }
 
-func init() { c14.Register(); c09conc.Register() }
+// C01 (concurrent part): "refused and stored state unchanged" while another caller's authorized
+// request is in flight - the same runner and decision procedure; one client is the superuser, the
+// others are restricted callers, every audit write is slow so that a refused and an allowed call
+// overlap inside the access check.
+var c01conc = &h.Campaign[LinCase]{
+	Prop: "C01", Sub: "concurrent",
+	Rule: "rapid: 2-4 clients x 2-6 calls on names {a, b} at db.DB or through one shared server; client 0 is the superuser, the others call as ONE restricted identity with a generated grant (1-2 rules), so allowed and refused calls of different callers overlap while the (slow, reading) audit device is writing; each recorded history is decided by porcupine against the map model in which a call the ACL model refuses must answer access-denied and change nothing; under the race detector; non-trivial = overlapping calls on one name with a mutation AND at least one refused call; distinct by program",
+	Quick: 500, Thorough: 60000,
+	Gen: func(rt *rapid.T) LinCase {
+		c := LinCase{HTTP: rapid.IntRange(0, 2).Draw(rt, "http") == 0, AuditYield: rapid.SampledFrom([]int{1, 3, 8}).Draw(rt, "audityield"), Rules: genLinRules(rt)}
+		c.Progs = append(c.Progs, []ConcOp{{Kind: "put", Name: "a", Val: "x"}, {Kind: "put", Name: "b", Val: "y"}})
+		nc := rapid.IntRange(2, 4).Draw(rt, "clients")
+		for i := 0; i < nc; i++ {
+			c.Progs = append(c.Progs, rapid.SliceOfN(rapid.Custom(func(rt *rapid.T) ConcOp {
+				return ConcOp{
+					Kind:       rapid.SampledFrom([]string{"put", "put", "activate", "delver", "del", "get", "getver", "cond", "info"}).Draw(rt, "kind"),
+					Name:       rapid.SampledFrom([]string{"a", "a", "b"}).Draw(rt, "name"),
+					Val:        rapid.SampledFrom([]string{"x", "w", "v"}).Draw(rt, "val"),
+					Ver:        uint32(rapid.IntRange(1, 3).Draw(rt, "ver")),
+					Yield:      rapid.IntRange(0, 3).Draw(rt, "yield"),
+					Restricted: i > 0,
+				}
+			}), 2, 6).Draw(rt, "prog"))
+		}
+		c.Setup = 1
+		return c
+	},
+	Run: func(t *testing.T, c LinCase) (*h.Violation, h.Info) {
+		v, info := runC14(t, c)
+		refused := false
+		for _, cl := range info.Classes {
+			if cl == "call-refused-by-the-acl" {
+				refused = true
+			}
+		}
+		info.NonTrivial = info.NonTrivial && refused
+		if v != nil && v.Clause == "linearizable" {
+			v.Clause, v.Sig = "refused-without-grant-under-concurrency", "refused-without-grant-under-concurrency"
+		}
+		return v, info
+	},
+}
+
+func init() { c14.Register(); c09conc.Register(); c01conc.Register() }
+
+func TestC01RaceConcurrent(t *testing.T) { c01conc.Check(t) }
 
 func TestC09RaceConcurrent(t *testing.T) { c09conc.Check(t) }
 
